@@ -237,8 +237,7 @@ def handlers : List (String × (List Sexp → String)) := [
       let (st, fin) := analyze R env G (← fuel.nat?)
       let visited := (G.nodes.map (·.id)).filter fun i => st.ins.has i
       let supported := G.nodes.all fun n => !(visited.contains n.id) || suppN n.node
-      let annos := overrideAnnos (G.nodes.flatMap fun n =>
-        if visited.contains n.id then annN R env (st.ins.get n.id) n.node else [])
+      let annos := st.annos.reverse
       let closIds := (st.clos.map (·.1)).foldl (fun acc k => if acc.contains k then acc else acc ++ [k]) []
       let misses := visited.flatMap (fun i => tmapMisses (st.ins.get i) ++ tmapMisses (st.outs.get i))
         ++ annos.flatMap (fun p => setMisses p.2) ++ closIds.flatMap (fun i => tmapMisses (st.clos.get i))
